@@ -241,6 +241,27 @@ RcvTemplates ==
   \cup {<<"collect", <<"rep", <<"recover", <<"theni", <<"recover", J("a"), i>>, J("!")>>, o>>, 0, Inf>>, "vec">> :
            i \in RInner, o \in {<<"retry", <<"any">>, <<"end">>>>, <<"skipuntil", <<"any">>, J("!")>>}}
   \cup {<<"or", <<"then", J("a"), <<"then", J("b"), J("!")>>>>, <<"recover", J("b"), o>>>> : o \in ROuter}
+(* nested_delimiters (C08): recover_with(via_parser(nested_delimiters(start, end, others, fallback))) -- the  *)
+(* fallback parser as recovery.rs:249-274 builds it: block = (many_block | any().and_is(none_of(skip))).repeated(), *)
+(* many_block = block delimited by any of the pairs; the whole delimited by (start, end); fallback(span)           *)
+NDBlock(pairs) ==
+  LET skip == [i \in 1..(2 * Len(pairs)) |-> pairs[(i + 1) \div 2][IF i % 2 = 1 THEN 1 ELSE 2]]
+      RECURSIVE Many(_)
+      Many(k) == IF k = 1 THEN <<"delim", Ref1, J(pairs[1][1]), J(pairs[1][2])>>
+                 ELSE <<"or", Many(k - 1), <<"delim", Ref1, J(pairs[k][1]), J(pairs[k][2])>>>>
+  IN <<"rec", <<"run", <<"rep", <<"or", Many(Len(pairs)), <<"ignored", <<"andis", <<"any">>, <<"noneof", skip>>>>>>>>, 0, Inf>>>>>>
+NDStrat(pairs) ==
+  <<"nesteddelim", pairs[1][1], pairs[1][2], SubSeq(pairs, 2, Len(pairs)),
+    <<"text", "nd", <<pairs[1][1], pairs[1][2]>> \o SubSeq(pairs, 2, Len(pairs)),
+      <<"map", <<"tospan", <<"delim", NDBlock(pairs), J(pairs[1][1]), J(pairs[1][2])>>>>, "nd">>>>>>
+NDStrats == {NDStrat(<< <<LP, RP>> >>), NDStrat(<< <<LP, RP>>, <<"[", "]">> >>)}
+NDInner == {<<"delim", <<"collect", <<"rep", J("a"), 0, Inf>>, "vec">>, J(LP), J(RP)>>,
+            <<"delim", <<"then", J("a"), J("a")>>, J(LP), J(RP)>>,
+            <<"then", J(LP), <<"then", J("a"), J(RP)>>>>}
+RcvNTemplates ==
+  {<<"recover", x, s>> : x \in NDInner, s \in NDStrats}
+  \cup {<<"then", <<"recover", x, s>>, RestCap>> : x \in NDInner, s \in NDStrats}
+  \cup {<<"collect", <<"rep", <<"recover", x, s>>, 0, Inf>>, "vec">> : x \in NDInner, s \in NDStrats}
 (* decorations around parsers that succeed while leaving a pending error behind, followed by  *)
 (* a later failure; an earlier alternative that failed further ahead (C17)                     *)
 LInner == {<<"then", J("a"), <<"ornot", J("b")>>>>, <<"then", J("a"), <<"or", J("b"), J("c")>>>>,
@@ -297,12 +318,12 @@ GapTemplates ==
   \cup {<<"collect", <<"rep", <<"then", J("a"), <<"tospan", <<"ornot", J("b")>>>>>>, 0, Inf>>, "vec">>,
         <<"foldlw", <<"any">>, <<"rep", <<"then", J("a"), <<"tospan", <<"empty">>>>>>, 0, Inf>>, "g">>,
         <<"foldrw", <<"rep", J("a"), 0, Inf>>, <<"tospan", <<"empty">>>>, "g">>}
-Templates(fam) == CASE fam = "memoT" -> MemoTemplates [] fam = "gapT" -> GapTemplates [] fam = "txt" -> TxtTemplates [] fam = "txtc" -> TxtCTemplates
+Templates(fam) == CASE fam = "memoT" -> MemoTemplates [] fam = "gapT" -> GapTemplates [] fam = "rcvN" -> RcvNTemplates [] fam = "txt" -> TxtTemplates [] fam = "txtc" -> TxtCTemplates
                     \* byte inputs have no text::newline; the radix family looks at int / digits only
                     [] fam = "txtb" -> {g \in TxtTemplates \cup TxtCTemplates : ~HasOp(g, {"newline"}) /\ g \notin {TUKw(<<"E", "a">>), <<"then", TUKw(<<"E", "a">>), RestCap>>}}
                     [] fam = "txtr" -> {<<"then", tp, RestCap>> : tp \in {TDigits(r) : r \in {"2", "8", "10", "16", "36"}} \cup {TInt(r) : r \in {"2", "8", "10", "16", "36"}}} [] fam = "drpT" -> DrpTemplates [] fam = "rcvT" -> RcvTemplates [] fam = "lblT" -> LblTemplates
                     [] fam = "pratt" -> PrattTemplates [] fam = "rec" -> RecTemplates [] fam = "lrec" -> LRecTemplates [] fam = "repT" -> RepTemplates
-TemplateFams == {"rec", "lrec", "repT", "pratt", "memoT", "rcvT", "lblT", "drpT", "txt", "txtc", "txtb", "txtr", "gapT"}
+TemplateFams == {"rec", "lrec", "repT", "pratt", "memoT", "rcvT", "lblT", "drpT", "txt", "txtc", "txtb", "txtr", "gapT", "rcvN"}
 
 Grammars == IF Fam \in TemplateFams THEN {g \in Templates(Fam) : Fam = "lrec" \/ WF(g)}
             ELSE {g \in UNION {GSz(Fam, n) : n \in 1..MaxSize} : WF(g)}
@@ -439,7 +460,7 @@ TextRefines ==
         sp == SpanOf(fr.cp.cur, cur)
     IN /\ ret.ok = (m >= 0)
        /\ ret.ok => /\ cur = fr.cp.cur + m
-                    /\ fr.mode = "E" => ret.val = VSl(sp[1], sp[2])
+                    /\ fr.mode = "E" => ret.val = (IF fr.g[2] = "nd" THEN VM("nd", VSp(sp[1], sp[2])) ELSE VSl(sp[1], sp[2]))
 
 (* C19: every tracked value is either in the returned output or has been dropped: nothing is   *)
 (* lost at the sites that manage initialisation by hand (group over arrays, collect_exactly)   *)
